@@ -145,7 +145,7 @@ def generate(ctx):
             continue
         pairs = equal_width_pairs(rng, genome) if rng.random() < 0.3 else [indel_rows(rng, genome) for _ in range(rng.randint(1, 3))]
         ref_row, rows = merge_rows(pairs)
-        annob = anno.render_genbank(genome, feats, rng) if suffix == "gb" else anno.render_gff(genome, feats)
+        annob = anno.render_genbank(genome, feats, rng) if suffix == "gb" else anno.render_gff(genome, feats, mix=rng)
         variants = [(ref_row, rows, "plain")]
         variants.append(add_double_gaps(rng, ref_row, rows, rng.randint(1, 5)) + ("dgap",))
         group = cid
